@@ -235,9 +235,18 @@ DOMAIN = {("searchsorted", 0): "sorted", ("digitize", 1): "sorted", ("interp", 1
 # components whose outputs are an unordered set (roots) are compared after sorting
 POSITIVE = {"igamma", "igammac", "igamma_grad_a", "random_gamma_grad", "betainc", "digamma", "polygamma", "zeta",
             "bessel_i0e", "bessel_i1e"}
-BOUNDED_KINDS = {"while_loop": ["own", "half", "unit"], "fori_loop": ["own", "half", "unit"],
-                 "arange": ["own", "half", "unit"], "linspace": ["own", "half", "unit"]}
-UNORDERED_OUTPUT = {"roots"}
+BOUNDED_KINDS = {"while_loop": ["own"],        # termination depends on the value (e.g. `while v < 5: v += 2x`)
+                 "fori_loop": ["own", "half", "unit"],
+                 "arange": ["own", "half", "unit"], "linspace": ["own", "half", "unit"],   # output size = f(values)
+                 "Transformer": ["own"]}       # float-typed token ids: must index the vocabulary
+UNORDERED_OUTPUT = {"roots", "eig"}            # eigenvalues / roots are a set: compared after sorting
+# (testcase name, draw kind or "*") -> why this draw is not judged (documented in notes/C01.md)
+ORACLE_EXEMPT = {
+    ("log_of_reduce_sum_exp_axis1", "mag"): "eager JAX overflows (exp(1e4) = inf in f32 and f64); the exported "
+                                            "ReduceLogSumExp is the numerically stable evaluation of the same formula",
+}
+EXEMPT_CONTEXT = {"primitives.random": "sampling primitives: the result is a function of the PRNG implementation "
+                                       "(threefry vs ONNX Random*), not of the inputs; only the testcase's own draw is judged"}
 
 
 def build_inputs(tp: dict, kind: str, seed: int, f64: bool, symval: int = 2):
@@ -619,6 +628,9 @@ def run_case(index: int, seed: int, kinds: list[str], symval: int = 2) -> dict:
     comp = tp.get("component")
     if comp in BOUNDED_KINDS:
         kinds = [k for k in kinds if k in BOUNDED_KINDS[comp]]
+    if tp.get("context") in EXEMPT_CONTEXT:
+        kinds = [k for k in kinds if k == "own"]
+    kinds = [k for k in kinds if (tp["testcase"], k) not in ORACLE_EXEMPT and (tp["testcase"], "*") not in ORACLE_EXEMPT]
     if f64:
         declared = (tp.get("rtol_f64", tp.get("rtol", 1e-7)), tp.get("atol_f64", tp.get("atol", 1e-7)))
     else:
